@@ -119,7 +119,7 @@ def interp_fn(m, fn, env, files=None, cls=None, inline=12, max_iter=24, filt=Non
 
 def build_config(chk, m):
     """The configuration object as defaultConfig() and the HTML5 renderer's addConfig() build it (interpreted)."""
-    fn = m.module('plasTeX.Config').functions.get('defaultConfig')
+    fn = m.func_or_none('plasTeX.Config', 'defaultConfig')
     need(fn is not None, 'plasTeX.Config.defaultConfig not found')
     chk.analysed(fn)
     outs = interp_fn(m, fn, {'loadConfigFiles': False})
@@ -127,7 +127,7 @@ def build_config(chk, m):
     need(len(rets) == 1 and isinstance(rets[0][1], A.Obj) and isinstance(rets[0][1].attrs.get('__dict'), dict),
          'defaultConfig() does not come back with one configuration object (%s)' % [(k, v) for k, s, v in outs][:3])
     cfg = rets[0][1]
-    add = m.module('plasTeX.Renderers.HTML5.Config').functions.get('addConfig')
+    add = m.func_or_none('plasTeX.Renderers.HTML5.Config', 'addConfig')
     need(add is not None, 'plasTeX.Renderers.HTML5.Config.addConfig not found')
     chk.analysed(add)
     outs = interp_fn(m, add, {'config': cfg})
@@ -188,7 +188,7 @@ def r161(chk, m):
                  'sections exist before the command line is declared and parsed; files named on the command line are read after '
                  'that and before the command-line values are applied; then the run starts - with and without --config', 2)
     mod = m.module('plasTeX.client')
-    fn = mod.functions.get('main')
+    fn = m.func_or_none(mod, 'main')
     need(fn is not None, 'client.main not found')
     chk.analysed(fn)
 
